@@ -8,6 +8,29 @@ REPO = os.environ.get("VERIF_REPO", "/repo")
 CACHE = os.path.join(VERIF, ".cache")
 GOENV = dict(os.environ, GOPROXY="off", GOSUMDB="off", GOTOOLCHAIN="local", GOFLAGS="", CGO_ENABLED=os.environ.get("CGO_ENABLED", "1"))
 
+COVERPKG = "github.com/aquilax/hranoprovod-cli/..."
+
+def coverage_report(covdir, anchored):
+    """statement coverage of the anchored source files reached by the runs that wrote into covdir (go tool covdata)"""
+    if not os.path.isdir(covdir) or not os.listdir(covdir): return None
+    out = os.path.join(covdir, "cover.txt")
+    p = subprocess.run(["go", "tool", "covdata", "textfmt", "-i=" + covdir, "-o=" + out], env=GOENV, stdout=subprocess.PIPE, stderr=subprocess.STDOUT)
+    if p.returncode != 0 or not os.path.exists(out): return dict(error=p.stdout.decode(errors="replace")[-300:])
+    per = {}
+    for line in open(out):
+        if line.startswith("mode:"): continue
+        try:
+            loc, n, cnt = line.rsplit(" ", 2)
+            f = loc.split(":")[0]
+        except ValueError: continue
+        f = f.replace("github.com/aquilax/hranoprovod-cli/cmd/hranoprovod-cli/v3/", "cmd/hranoprovod-cli/").replace("github.com/aquilax/hranoprovod-cli/v3/", "")
+        t = per.setdefault(f, [0, 0]); t[0] += int(n); t[1] += int(n) if int(cnt) > 0 else 0
+    res = {}
+    for f in anchored:
+        if f in per: res[f] = "%d/%d statements (%.0f%%)" % (per[f][1], per[f][0], 100.0 * per[f][1] / max(1, per[f][0]))
+        elif f.endswith(".go"): res[f] = "not reached (or not a compiled Go file of the binaries run)"
+    return res
+
 def tree_hash(repo=REPO):
     h = hashlib.sha256()
     for root, dirs, files in os.walk(repo):
@@ -27,7 +50,7 @@ def build_impl(race=False, verbose=False):
     """returns dict(hr=..., hr_verif=..., pub=..., [pub_race=...], hash=...)"""
     th = tree_hash()
     d = os.path.join(CACHE, "impl", th)
-    want = ["hr", "hr_verif", "pub"] + (["pub_race"] if race else [])
+    want = ["hr", "hr_verif", "pub", "hr_cover"] + (["pub_race"] if race else [])
     if all(os.path.exists(os.path.join(d, w)) for w in want):
         return dict({w: os.path.join(d, w) for w in want}, hash=th, cached=True)
     os.makedirs(d, exist_ok=True)
@@ -45,11 +68,12 @@ def build_impl(race=False, verbose=False):
         shutil.copy(os.path.join(hg, "pub", "main.go"), os.path.join(scratch, "verifpub/main.go"))
         jobs = [
             ("hr", ["go", "build", "-o", os.path.join(d, "hr"), "."], "cmd/hranoprovod-cli"),
-            ("hr_verif", ["go", "build", "-tags", "verif", "-o", os.path.join(d, "hr_verif"), "."], "cmd/hranoprovod-cli"),
-            ("pub", ["go", "build", "-tags", "verif", "-o", os.path.join(d, "pub"), "./verifpub"], "."),
+            ("hr_verif", ["go", "build", "-cover", "-coverpkg=" + COVERPKG, "-tags", "verif", "-o", os.path.join(d, "hr_verif"), "."], "cmd/hranoprovod-cli"),
+            ("pub", ["go", "build", "-cover", "-coverpkg=" + COVERPKG, "-tags", "verif", "-o", os.path.join(d, "pub"), "./verifpub"], "."),
+            ("hr_cover", ["go", "build", "-cover", "-coverpkg=" + COVERPKG, "-o", os.path.join(d, "hr_cover"), "."], "cmd/hranoprovod-cli"),
         ]
         if race:
-            jobs.append(("pub_race", ["go", "build", "-race", "-tags", "verif", "-o", os.path.join(d, "pub_race"), "./verifpub"], "."))
+            jobs.append(("pub_race", ["go", "build", "-race", "-cover", "-coverpkg=" + COVERPKG, "-tags", "verif", "-o", os.path.join(d, "pub_race"), "./verifpub"], "."))
         procs = []
         for name, cmd, cwd in jobs:
             if os.path.exists(os.path.join(d, name)): continue
